@@ -58,7 +58,7 @@ def run_checks(checks, env):
     for c in checks:
         t0 = time.time()
         cmd = ["./check", c, "--tier", args.tier, "--no-evidence"] + (["--jobs", args.jobs] if args.jobs else [])
-        p = sh(cmd, cwd="/verif", env=env)
+        p = sh(cmd, cwd=os.environ.get("VFW_VERIF_DIR", "/verif"), env=env)
         viol = [l for l in p.stdout.splitlines() if l.startswith("VIOLATION") or l.startswith("HARNESS") or l.startswith("KNOWN")]
         detail = [l.strip()[:300] for l in p.stdout.splitlines() if l.startswith("  ") and "[" in l][:4]
         res["checks"][c] = {"exit": p.returncode, "lines": viol[:6], "detail": detail, "wall": round(time.time() - t0, 1), "tier": args.tier}
